@@ -680,3 +680,34 @@ pub fn directive_body_profile() -> Space<Prog> {
             Prog { items, layout, pre }
         })
 }
+
+/// redefinitions: every ordered pair of definitions of one name (7 formal lists incl. renamed and
+/// reordered formals x 2 texts), from the source or the first one from the caller, a usage after each
+pub fn redefine_profile() -> Space<Prog> {
+    let f = |n: &str, d: Option<&str>| (n.to_string(), d.map(|x| x.to_string()));
+    let mut formals = formals_options();
+    formals.push(Some(vec![f("x", Some("ex"))]));
+    formals.push(Some(vec![f("y", None), f("x", None)]));
+    let bodies = vec!["x - y", "[x]"];
+    let defs = Space::of(formals).product(Space::of(bodies));
+    let usages: Vec<Option<Vec<String>>> = vec![None, Some(vec!["".into()]), Some(vec!["p".into()]), Some(vec!["p".into(), "q".into()])];
+    defs.clone().product(defs).product(Space::of(usages)).product(Space::of(vec![false, true])).product(Space::of(vec![Layout::OwnLine, Layout::Inline])).map(|(((((f1, b1), (f2, b2)), usage), first_from_caller), layout)| {
+        let mut items = vec![];
+        let mut pre = vec![];
+        if first_from_caller {
+            let key = match &f1 {
+                None => "F".to_string(),
+                Some(v) => format!("F({})", v.iter().map(|(n, d)| match d { Some(d) => format!("{}={}", n, d), None => n.clone() }).collect::<Vec<_>>().join(",")),
+            };
+            pre.push((key, Some(b1.to_string())));
+        } else {
+            items.push(Item::Define { name: "F".into(), formals: f1, body: b1.into() });
+        }
+        items.push(Item::Text);
+        items.push(Item::Define { name: "F".into(), formals: f2, body: b2.into() });
+        items.push(Item::Text);
+        items.push(Item::Usage { name: "F".into(), args: usage });
+        items.push(Item::Text);
+        Prog { items, layout, pre }
+    })
+}
